@@ -98,12 +98,26 @@ def menu(with_blobs, names=None):
     ops += [('unload-by', 'name-shared'), ('unload-by', 'email-shared')]
     # unload of exactly the object the caller holds (keyring.key() would hand out the private half first)
     ops += [('unload-obj', n) for n in names if n in ('Dpub', 'Epub', 'A2')]
+    # a subkey on its own: keyring.key(subkey id) hands out the subkey object, unload() takes any key object; load() takes a subkey object as well
+    # (in the object-only menus, where the model can tell the instances of one key apart by identity)
+    if not with_blobs:
+        ops += [('unload-sub', '%s:%d' % (n, i)) for n in names if n in ('E', 'Epub') for i in (0, 1)]
+        ops += [('load-sub', '%s:0' % n) for n in names if n in ('E', 'Epub')]
     names = list(names)
     if with_blobs:
         ops += [('load-bin', 'A'), ('load-asc', 'B'), ('load-file', 'C'), ('load-list', 'A+Dsec'), ('load-bin', 'E'), ('load-asc', 'Dpub')]
         # one blob holding several keys, among them both halves of one key (an export of a whole keyring)
         ops += [('load-blob', 'Dpub+Dsec'), ('load-blob', 'Dsec+Dpub'), ('load-blob', 'Epub+A+E')]
     return ops
+
+
+def all_parts(o):
+    return frozenset(['P'] + [str(sk.fingerprint) for sk in o.subkeys.values()])
+
+
+def entry(name, o, obj):
+    """Model entry of one loaded key: (name, fingerprint, is_public, the loaded object or None, loaded components: 'P' and subkey fingerprints)"""
+    return (name, str(o.fingerprint), o.is_public, obj, all_parts(o))
 
 
 class Prop(object):
@@ -177,10 +191,12 @@ class Prop(object):
                 last = step == len(ops) - 1
                 kind, arg = op
                 if kind == 'load-obj':
-                    if any(l[0] == arg and l[3] is not None for l in loaded):
+                    if any(l[0] == arg and l[3] is not None and l[4] == all_parts(objs[arg]) for l in loaded):
                         return None         # the same object twice is a no-op in PGPy; not explored
                     kr.load(objs[arg])
-                    loaded.append((arg, str(objs[arg].fingerprint), objs[arg].is_public, objs[arg]))
+                    # (an object of which only some components were loaded so far becomes whole)
+                    loaded[:] = [l for l in loaded if not (l[0] == arg and l[3] is not None)]
+                    loaded.append(entry(arg, objs[arg], objs[arg]))
                 elif kind in ('load-bin', 'load-asc', 'load-file'):
                     o = objs[arg]
                     if kind == 'load-bin':
@@ -194,19 +210,51 @@ class Prop(object):
                         kr.load(tmp.name)
                         os.unlink(tmp.name)
                         tmp = None
-                    loaded.append((arg, str(o.fingerprint), o.is_public, None))
+                    loaded.append(entry(arg, o, None))
                 elif kind == 'load-blob':
                     parts = arg.split('+')
                     kr.load(b''.join(bytes(objs[x]) for x in parts))
                     for x in parts:
-                        loaded.append((x, str(objs[x].fingerprint), objs[x].is_public, None))
+                        loaded.append(entry(x, objs[x], None))
                 elif kind == 'load-list':
                     a, b = arg.split('+')
                     kr.load([bytes(objs[a]), str(objs[b])])
-                    loaded.append((a, str(objs[a].fingerprint), objs[a].is_public, None))
-                    loaded.append((b, str(objs[b].fingerprint), objs[b].is_public, None))
+                    loaded.append(entry(a, objs[a], None))
+                    loaded.append(entry(b, objs[b], None))
+                elif kind == 'load-sub':
+                    n, i = arg.split(':')
+                    sk = list(objs[n].subkeys.values())[int(i)]
+                    sfp = str(sk.fingerprint)
+                    mine = [l for l in loaded if l[0] == n and l[3] is not None]
+                    if mine and sfp in mine[0][4]:
+                        return None         # this very object is loaded already: a no-op
+                    kr.load(sk)
+                    loaded[:] = [l for l in loaded if not (l[0] == n and l[3] is not None)]
+                    loaded.append((n, str(objs[n].fingerprint), objs[n].is_public, objs[n], (mine[0][4] if mine else frozenset()) | {sfp}))
+                elif kind == 'unload-sub':
+                    n, i = arg.split(':')
+                    sfp = str(list(objs[n].subkeys.values())[int(i)].fingerprint)
+                    if not any(l[0] == n and sfp in l[4] for l in loaded):
+                        return None
+                    with kr.key(sfp) as k:
+                        got = k
+                    if str(got.fingerprint) != sfp or got.is_primary:
+                        self._fail(r, 'selection', idx, case, 'keyring.key(%s) returned key %s' % (sfp, got.fingerprint))
+                        return None
+                    kr.unload(got)
+                    # refinement: whichever loaded instance of this subkey PGPy handed out is the one that goes
+                    hit = [j for j, l in enumerate(loaded) if sfp in l[4] and l[3] is not None and got.parent is l[3]] or \
+                          [j for j, l in enumerate(loaded) if sfp in l[4] and l[3] is None and l[2] == got.is_public]
+                    if not hit:
+                        self._fail(r, 'selection', idx, case, 'keyring.key(%s) returned a subkey object that is not loaded' % sfp)
+                        return None
+                    l = loaded[hit[0]]
+                    if l[4] - {sfp}:
+                        loaded[hit[0]] = l[:4] + (l[4] - {sfp},)
+                    else:
+                        del loaded[hit[0]]
                 elif kind == 'unload':
-                    cands = [l for l in loaded if l[0] == arg]
+                    cands = [l for l in loaded if l[0] == arg and 'P' in l[4]]
                     if not cands:
                         return None
                     fp = cands[0][1]
@@ -219,14 +267,14 @@ class Prop(object):
                     kr.unload(got)
                     self._model_remove(loaded, got)
                 elif kind == 'unload-obj':
-                    cands = [l for l in loaded if l[0] == arg and l[3] is not None]
+                    cands = [l for l in loaded if l[0] == arg and l[3] is not None and 'P' in l[4]]
                     if not cands:
                         return None
                     kr.unload(objs[arg])
                     self._model_remove(loaded, objs[arg])
                 elif kind == 'unload-by':
                     ident = 'Same Name' if arg == 'name-shared' else 'same@example.org'
-                    holders = [l for l in loaded if l[0] in (('A', 'B', 'A2') if arg == 'name-shared' else ('A', 'B', 'C', 'A2'))]
+                    holders = [l for l in loaded if l[0] in (('A', 'B', 'A2') if arg == 'name-shared' else ('A', 'B', 'C', 'A2')) and 'P' in l[4]]
                     if not holders:
                         return None
                     try:
@@ -258,7 +306,7 @@ class Prop(object):
                 del loaded[i]
                 return True
         for i, l in enumerate(loaded):
-            if l[3] is None and l[1] == str(got.fingerprint) and l[2] == got.is_public:
+            if l[3] is None and l[1] == str(got.fingerprint) and l[2] == got.is_public and 'P' in l[4]:
                 del loaded[i]
                 return True
         return False
@@ -274,54 +322,56 @@ class Prop(object):
         """Invariant in the reached state. -> canonical state"""
         probs = []
         names = [l[0] for l in loaded]
-        # ---- fingerprints() under every filter
+        # ---- fingerprints() under every filter: the components that are loaded (a primary key goes with all its subkeys; a subkey may come and go alone)
         want = {}
         for half in ('any', 'public', 'private'):
             for typ in ('any', 'primary', 'sub'):
                 s = set()
-                for n, fp, is_pub, _o in loaded:
-                    o = objs[n]
+                for n, fp, is_pub, _o, parts in loaded:
                     if half != 'any' and (half == 'public') != is_pub:
                         continue
-                    if typ in ('any', 'primary'):
+                    if typ in ('any', 'primary') and 'P' in parts:
                         s.add(fp)
                     if typ in ('any', 'sub'):
-                        s.update(str(sk.fingerprint) for sk in o.subkeys.values())
+                        s.update(x for x in parts if x != 'P')
                 want[(half, typ)] = s
                 got = set(str(f) for f in kr.fingerprints(keyhalf=half, keytype=typ))
                 r.transitions += 1
                 if got != s:
                     probs.append(('fingerprints', 'fingerprints(keyhalf=%s, keytype=%s) = %s, loaded: %s' % (half, typ, sorted(x[-8:] for x in got), sorted(x[-8:] for x in s))))
-        nobj = sum(1 + len(objs[n].subkeys) for n in names)
+        nobj = sum(len(l[4]) for l in loaded)
         if len(kr) != nobj:
             probs.append(('len', 'len(keyring) = %d, %d key objects are loaded' % (len(kr), nobj)))
-        # ---- every identifier of a loaded key selects a loaded key carrying it; identifiers of unloaded-only keys select nothing
+        # ---- every identifier of a loaded component selects a loaded component carrying it; identifiers of unloaded-only keys select nothing
         loaded_ids = {}
-        for n in set(names):
-            for kind, ident in idents(objs[n]).items():
-                loaded_ids.setdefault(ident, kind)
-            for sk in objs[n].subkeys.values():
-                fp = str(sk.fingerprint)
-                for kind, ident in (('subkey-fingerprint', fp), ('subkey-keyid', fp[-16:]), ('subkey-shortid', fp[-8:])):
+        loaded_fprs = set()
+        for n, fp, _p, _o, parts in loaded:
+            if 'P' in parts:
+                loaded_fprs.add(fp)
+                for kind, ident in idents(objs[n]).items():
                     loaded_ids.setdefault(ident, kind)
-        loaded_fprs = set(l[1] for l in loaded)
+            for sfp in parts - {'P'}:
+                loaded_fprs.add(sfp)
+                for kind, ident in (('subkey-fingerprint', sfp), ('subkey-keyid', sfp[-16:]), ('subkey-shortid', sfp[-8:])):
+                    loaded_ids.setdefault(ident, kind)
         for ident, kind in loaded_ids.items():
             r.transitions += 1
             if ident not in kr:
                 probs.append(('contains', '%s %r of a loaded key is not "in" the keyring' % (kind, ident)))
             try:
                 with kr.key(ident) as k:
-                    top = k.parent if k.parent is not None else k
-                    if str(top.fingerprint) not in loaded_fprs:
-                        probs.append(('selection', '%s %r selects key %s which is not loaded' % (kind, ident, top.fingerprint)))
+                    if str(k.fingerprint) not in loaded_fprs:
+                        probs.append(('selection', '%s %r selects key %s which is not loaded' % (kind, ident, k.fingerprint)))
                     elif not carries(k, ident):
                         probs.append(('selection', '%s %r selects key %s which does not carry it' % (kind, ident, k.fingerprint)))
             except KeyError:
                 probs.append(('loaded-identifier-selects-nothing', '%s %r of a loaded key selects nothing (loaded: %s)' % (kind, ident, names)))
         for n in (case.get('names') or OBJ_NAMES):
-            if n in names or (n == 'Dpub' and 'Dsec' in names) or (n == 'Dsec' and 'Dpub' in names) or (n == 'E' and 'Epub' in names) or (n == 'Epub' and 'E' in names):
-                continue
-            for kind, ident in idents(objs[n]).items():
+            every = dict((ident, kind) for kind, ident in idents(objs[n]).items())
+            for sk in objs[n].subkeys.values():
+                sfp = str(sk.fingerprint)
+                every.update({sfp: 'subkey-fingerprint', sfp[-16:]: 'subkey-keyid', sfp[-8:]: 'subkey-shortid'})
+            for ident, kind in every.items():
                 if ident in loaded_ids:
                     continue
                 r.transitions += 1
@@ -334,34 +384,49 @@ class Prop(object):
                 if hit or sel is not None:
                     probs.append(('unloaded-identifier-selects', '%s %r belongs only to keys that are not loaded but %s' % (kind, ident, 'is "in" the keyring' if hit else 'selects %s' % sel.fingerprint)))
         # ---- selection by signature / message
-        if 'E' in names or 'Dsec' in names or 'Dpub' in names:
+        d_loaded = any(l[0] in ('Dsec', 'Dpub') and 'P' in l[4] for l in loaded)
+        if not hasattr(self, '_sel'):
             import pgpy
             from pgpy.constants import HashAlgorithm
-            src = objs['Dsec']
-            if not hasattr(self, '_sel'):
-                m0 = pgpy.PGPMessage.new(b'for eve', compression=pgpy.constants.CompressionAlgorithm.Uncompressed, format='b')
-                self._sel = (src.sign(b'select me', hash=HashAlgorithm.SHA256), objs['E'].pubkey.encrypt(m0))
-            if 'Dsec' in names or 'Dpub' in names:
-                sig = self._sel[0]
+            from refpgp import msg as rmsg
+            m0 = pgpy.PGPMessage.new(b'for eve', compression=pgpy.constants.CompressionAlgorithm.Uncompressed, format='b')
+            e0 = objs['E'].pubkey.encrypt(m0)
+            kid = rmsg.recognise(bytes(e0))['esks'][0]['body'][1:9].hex().upper()
+            self._sel = (objs['Dsec'].sign(b'select me', hash=HashAlgorithm.SHA256), e0, kid)
+        src = objs['Dsec']
+        if d_loaded:
+            sig = self._sel[0]
+            r.transitions += 1
+            try:
+                with kr.key(sig) as k:
+                    if str(k.fingerprint) != str(src.fingerprint):
+                        probs.append(('selection', 'selection by signature returned %s, issuer is %s' % (k.fingerprint, src.fingerprint)))
+            except KeyError:
+                probs.append(('loaded-identifier-selects-nothing', 'selection by a signature of loaded key D selects nothing'))
+        # (the message names the encryption subkey of E: it selects while that subkey is loaded, with or without the rest of its key)
+        holders = [l for l in loaded if any(x != 'P' and x[-16:] == self._sel[2] for x in l[4])]
+        if holders:
+            e = self._sel[1]
+            r.transitions += 1
+            try:
+                with kr.key(e) as k:
+                    if str(k.fingerprint)[-16:] != self._sel[2] and str(k.fingerprint) != str(objs['E'].fingerprint):
+                        probs.append(('selection', 'selection by message returned %s' % k.fingerprint))
+                    elif k.is_public and any(not l[2] for l in holders):
+                        probs.append(('selection', 'selection by message returned a public key object although the private key that can decrypt it is loaded'))
+            except KeyError:
+                probs.append(('loaded-identifier-selects-nothing', 'selection by a message encrypted to loaded key E selects nothing'))
+        # a signature whose issuer / a message whose recipient is not loaded selects nothing: KeyError, as documented for keyring.key()
+        for what, ident, absent in (('signature by key D', self._sel[0], not d_loaded), ('message encrypted to key E', self._sel[1], not holders)):
+            if absent:
                 r.transitions += 1
                 try:
-                    with kr.key(sig) as k:
-                        if str(k.fingerprint) != str(src.fingerprint):
-                            probs.append(('selection', 'selection by signature returned %s, issuer is %s' % (k.fingerprint, src.fingerprint)))
+                    with kr.key(ident) as k:
+                        probs.append(('unloaded-identifier-selects', 'a %s selects %s although that key is not loaded' % (what, k.fingerprint)))
                 except KeyError:
-                    probs.append(('loaded-identifier-selects-nothing', 'selection by a signature of loaded key D selects nothing'))
-            if 'E' in names:
-                e = self._sel[1]
-                r.transitions += 1
-                try:
-                    with kr.key(e) as k:
-                        top = k.parent if k.parent is not None else k
-                        if str(top.fingerprint) != str(objs['E'].fingerprint):
-                            probs.append(('selection', 'selection by message returned %s' % k.fingerprint))
-                        elif k.is_public:
-                            probs.append(('selection', 'selection by message returned a public key object although the private key that can decrypt it is loaded'))
-                except KeyError:
-                    probs.append(('loaded-identifier-selects-nothing', 'selection by a message encrypted to loaded key E selects nothing'))
+                    pass
+                except Exception as ex:
+                    probs.append(('unloaded-identifier-raises', 'a %s, while that key is not loaded: keyring.key() raises %r instead of KeyError' % (what, ex)))
         r.outcomes['state-ok' if not probs else 'state-violation'] += 1
         kinds = set()
         for kind, detail in probs:
@@ -374,10 +439,10 @@ class Prop(object):
         except A.HarnessBinding:
             # the keyring's internals are laid out differently in this tree: tell states apart by what is loaded and in which order it was loaded
             # (finer than the alias layout, so nothing is merged that should not be; the search only gets slower)
-            return repr(('load-order', tuple((n, x is not None) for n, _f, _p, x in loaded)))
+            return repr(('load-order', tuple((n, x is not None, tuple(sorted(pp))) for n, _f, _p, x, pp in loaded)))
         byid = {}
         for pkid, k in A.keyring_keys(kr).items():
             top = k.parent if k.parent is not None else k
             byid[pkid] = '%s%s%s' % (str(top.fingerprint)[-4:], 'p' if k.is_public else 's', '' if k.parent is None else '/' + str(k.fingerprint)[-4:])
         layout = tuple(tuple(sorted((str(a), byid.get(p, '?')) for a, p in layer.items() if not str(a)[0].isdigit() or len(str(a)) != 40)) for layer in A.keyring_aliases(kr))
-        return repr((tuple(sorted((n, x is not None) for n, _f, _p, x in loaded)), layout))
+        return repr((tuple(sorted((n, x is not None, tuple(sorted(pp))) for n, _f, _p, x, pp in loaded)), layout))
